@@ -50,7 +50,7 @@ def run(res, tier, seed):
     res.cov["params"] = {"join_nodeinfo_fields": fields,
                          "join_carries_writer_state": {k: "WriterState" in v for k, v in fields.items()}}
     lib_fsm.JOIN_HAS_WS = "WriterState" in fields["handleJoinRequest"]
-    lib_fsm.run_property(res, "C23", tier, seed, THEOREMS, MODULES, EXTRA, FAMILIES, 330, 5000, dump_all=True)
+    lib_fsm.run_property(res, "C23", tier, seed, THEOREMS, MODULES, EXTRA, FAMILIES, 330, 3500, dump_all=True)
 
 
 def replay(res, path):
